@@ -216,23 +216,35 @@ def _fin(M):
     return finalize_symmetric_matrix(M)
 
 
+STUDY_QS = ("k0", "kG0", "kM", "uvw", "strain", "stress", "fext", "static", "fint", "kT", "kGc")
+
+
 def observe(pd, req, fresh_model=True):
+    """run the request on a real Panel; returns (observation as dyadics, flags_ok).  With req["sweep"] = <aspect> the
+    object is first defined differently in that aspect and asked the same question (a parameter study on ONE object),
+    then re-defined as pd and asked again: only the second answer is judged"""
     if req.get("via") == "bay":
         return observe_bay_aero(pd, req)
-    """run the request on a freshly defined real Panel; returns (dense matrix as dyadics, flags_ok)"""
-    if req.get("sweep") and req["q"] in ("k0", "kG0", "kM"):
-        # parameter study on ONE object: evaluate another definition first, then re-define and ask again
-        p = build_panel(perturbed(pd, req["sweep"]), explicit_model=True)
-        if req["q"] == "kG0":
-            p.Nxx, p.Nyy, p.Nxy = 1.5, -0.5, 0.25
-        p.calc_k0(silent=True)
-        if req["q"] == "kG0":
-            p.calc_kG0(silent=True)
-        elif req["q"] == "kM":
-            p.calc_kM(silent=True)
+    kind = req.get("sweep")
+    if kind and kind is not True and req["q"] in STUDY_QS:
+        pd2 = perturbed(pd, kind)
+        p = build_panel(pd2, explicit_model=True)
+        r2 = {k: v for k, v in req.items() if k not in ("sweep", "size", "row0", "col0", "coff")}
+        if "c" in r2 and (pd2["m"], pd2["n"]) != (pd["m"], pd["n"]):
+            n2 = (1 if pd2["model"] == "plate_w" else 3) * pd2["m"] * pd2["n"]
+            r2["c"] = (list(r2["c"]) * 3)[:n2]
+        try:
+            execute(p, pd2, r2)
+        except Exception:
+            pass                      # the first leg only creates history
         redefine(p, pd)
+        p.forces, p.forces_inc = [], []
     else:
         p = build_panel(pd, explicit_model=fresh_model, ctor=bool(req.get("ctor")))
+    return execute(p, pd, req)
+
+
+def execute(p, pd, req):
     kw = {}
     if req.get("size", 0):
         kw = dict(size=req["size"], row0=req["row0"], col0=req["col0"])
@@ -520,8 +532,8 @@ def random_req(rng, pd, q):
         r["ctor"] = True
     if q in ("k0", "kG0", "kM") and rng.random() < 0.25:
         r["nofin"] = True
-    if q in ("k0", "kG0", "kM") and rng.random() < 0.4:
-        r["sweep"] = rng.choice(SWEEP_KINDS)
+    if q in STUDY_QS and rng.random() < 0.4:
+        r["sweep"] = rng.choice(SWEEP_KINDS if q in ("k0", "kG0", "kM") else SWEEP_KINDS[:8])
     if q in ("k0", "kG0", "kM") and rng.random() < 0.3:
         off = rng.randint(1, 9)
         r.update(size=size + off + rng.randint(0, 7), row0=off, col0=off)
@@ -684,8 +696,9 @@ def run_prop(prop, qs, tier, seed, build, nrand_quick=40, nrand_thorough=600, wh
                 r["ctor"] = True
             if k % 4 == 2 and r["q"] in ("k0", "kG0", "kM"):
                 r["nofin"] = True
-            if k % 2 == 1 and r["q"] in ("k0", "kG0", "kM"):
-                r["sweep"] = SWEEP_KINDS[(k // 2) % len(SWEEP_KINDS)]
+            if k % 2 == 1 and r["q"] in STUDY_QS and not r.get("coff"):
+                kinds = SWEEP_KINDS if r["q"] in ("k0", "kG0", "kM") else SWEEP_KINDS[:8]
+                r["sweep"] = kinds[(k // 2) % len(kinds)]
         try:
             obs, ok = observe(pd, r, fresh_model=(k % 3 != 0))
         except Exception as ex:
